@@ -2,12 +2,13 @@ import Driver.Proto
 import Driver.WW
 import Driver.Sim
 import Driver.Helpers
+import Driver.MP
 open Lean
 
 namespace Driver
 
 def allHandlers : List (String × Handler) :=
-  Driver.WW.handlers ++ Driver.Sim.handlers ++ Driver.Helpers.handlers
+  Driver.WW.handlers ++ Driver.Sim.handlers ++ Driver.Helpers.handlers ++ Driver.MP.handlers
 
 def dispatch (line : String) : String :=
   match Json.parse line with
